@@ -402,9 +402,12 @@ theorem strat_step (f : Nat) (ih : AllExt f) (P : Prog) (s : St) (i first m arg 
 theorem execOp_other (f : Nat) (P : Prog) (s : St) (op : Op)
     (hc : ∀ i arg, op ≠ .callS i arg) (he : ∀ g a st t, op ≠ .emit g a st t) (ht : op ≠ .throw_) :
     execOp (f+1) P s op =
-      (match stepSimple s op with
-       | some (s, r) => some (s, .ok r)
-       | none => some (s, .ok "badop")) := by
+      (match modeRule P s op with
+       | some r => some (s, .ok r)
+       | none =>
+         match stepSimple s op with
+         | some (s, r) => some (s, .ok r)
+         | none => some (s, .ok "badop")) := by
   rw [execOp]
   · rfl
   · exact hc
@@ -469,6 +472,8 @@ theorem op_step (f : Nat) (ih : AllExt f) (P : Prog) (s : St) (op : Op) (s' : St
     rw [execOp] at h
     simp at h; obtain ⟨rfl, _⟩ := h; exact Ext.refl _
   rw [execOp_other f P s op (fun i a e => hc ⟨i, a, e⟩) (fun g a st t e => he ⟨g, a, st, t, e⟩) ht] at h
+  split at h
+  · simp at h; obtain ⟨rfl, _⟩ := h; exact Ext.refl _
   split at h
   · rename_i s1 r1 hs
     simp at h; obtain ⟨rfl, _⟩ := h
